@@ -305,7 +305,11 @@ def check_templates_closed(ctx, repo):
     # import block: constants of generate_code that contain import statements
     imported = set()
     cg = repo.cls('CodeGenerator').methods['generate_code']
-    for n in ast.walk(cg.node):
+    # ... or module-level constants that generate_code names
+    used = {x.id for x in ast.walk(cg.node) if isinstance(x, ast.Name) and isinstance(x.ctx, ast.Load)}
+    mod_consts = [st_.value for st_ in repo.modules['codegen']['tree'].body if isinstance(st_, ast.Assign) and len(st_.targets) == 1 and isinstance(st_.targets[0], ast.Name)
+                  and st_.targets[0].id in used and isinstance(st_.value, ast.Constant) and isinstance(st_.value.value, str)]
+    for n in list(ast.walk(cg.node)) + mod_consts:
         if isinstance(n, ast.Constant) and isinstance(n.value, str) and 'import ' in n.value and 'def ' not in n.value:
             # the import block of the module: text made of import statements only.  What a driver
             # template imports in its own text serves that driver (and the blocks spliced into it),
